@@ -554,6 +554,22 @@ def ordered_tasks(ctx):
     return sorted((reach & set(S.tasks)) - frag), sorted(frag)
 
 
+def resolve_local_closure(r, t):
+    """the ('closure', name, caps) term behind a callee operand: through references, mutation records and loop phis"""
+    hops = 0
+    while t is not None and hops < 10:
+        hops += 1
+        if t[0] == 'closure':
+            return t
+        if t[0] in ('ref', 'mut') and isinstance(t[1], tuple):
+            t = t[1]
+        elif t[0] == 'phi':
+            t = r.init.get((t[1], t[2]))
+        else:
+            return None
+    return None
+
+
 def emissions(ctx, b):
     """(kind, K, V, line, detail) for every point where a task emits a (key,value) / writes a slot"""
     I = items(ctx)
@@ -586,6 +602,12 @@ def emissions(ctx, b):
                 e = I.elem(a[0])
                 rr = ctx.opa.run(a[1][1], [a[1], e])
                 scan_calls([cc for _, cc in rr.call_sites()], via='for_each/')
+            elif decl(c['t']) in FN_CALLS and len(a) == 2 and a[1][0] == 'tuple' and resolve_local_closure(r, c['args'][0]) is not None and len(via) < 60:
+                # a local closure that emits on behalf of the task (`let mut emit = |idx, input| collected.extend(..)`): its body with
+                # the arguments of this call
+                ct = resolve_local_closure(r, c['args'][0])
+                rr = ctx.opa.run(ct[1], [ct] + list(a[1][1]))
+                scan_calls([cc for _, cc in rr.call_sites()], via=via + 'closure/')
             elif c['t'].get('local') and callee_of(c['t']) in ctx.facts.bodies and len(via) < 60:
                 # a crate helper that emits on behalf of the task: look inside with the caller's argument terms
                 cal = ctx.facts.bodies[callee_of(c['t'])]
@@ -800,7 +822,7 @@ def c07_seq(ctx):
         out.inst(key, ok, str([m for m, _ in names]), sample={'collect_x': key_of(b), 'sequential_branch_calls': [m for m, _ in names]})
         if not ok:
             out.fail(key, '%s: the sequential branch of collect_x is not `SplitVec::from(self.collect())` (calls: %s)' % (key_of(b), [m for m, _ in names]), b.where())
-    out.floor('dispatching_collect_x', n, 3 if not ctx.fixture else 0)
+    out.floor('dispatching_collect_x', n, 1 if not ctx.fixture else 0)
     return out
 
 
@@ -2555,6 +2577,17 @@ def _accept_rule(ctx, RID, roots, KINDS, floor):
                         probs.append('with the filter accepting the element the predicate is %s, not true: a match can be passed over' % t_str(val)[:80])
                     if not want and not (val == ('const', 0) or direct) and uses_pred:
                         probs.append('with the filter rejecting the element the predicate is %s, not false: a non-match can be reported' % t_str(val)[:80])
+            if not uses_pred and RID == 'C05-ACCEPT':
+                # an adaptor over the *stream of pulled chunks* (`chunks.filter_map(|chunk| chunk.map(..).filter(..).reduce(reduce))`)
+                # aggregates per chunk; it is no element filter - the accumulator rules judge it
+                try:
+                    names_, root_ = I.spine(c['args'][0])
+                    chunk_stream = source_stream_root(I, root_) and not (is_stream_root(root_) or pull_ids(root_))
+                except Exception:
+                    chunk_stream = False
+                if chunk_stream:
+                    out.inst(key, True, 'per-chunk aggregation over the stream of pulls', nontrivial=False)
+                    continue
             if not uses_pred and kind in ('filter', 'take_while', 'skip_while', 'filter_map', 'map_while') and RID == 'C05-ACCEPT':
                 # a filtering adaptor whose closure consults no user test (`.filter(|c| *c)` after `.map(is_accepted)`, or
                 # `.filter(|inner| inner.size_hint().0 > 0)`): decided on the whole chain up to and including it - one symbolic element
@@ -2581,6 +2614,11 @@ def _accept_rule(ctx, RID, roots, KINDS, floor):
             latches = [a for (a, h) in cfg.back_edges() if h == header]
             probs = []
             used = consulted(b, b.name, None)
+            if not used:
+                # the loop accepts on the outcome of an inner search (`if let Some(x) = inner.find(filter)`), which is an instance of
+                # its own; nothing to decide here
+                out.inst(key, True, 'acceptance decided by an inner search', nontrivial=False)
+                continue
             for (cname, ft, hv) in CASES:
                 if (cname == 'filter-rejects' and 'filter' not in used) or (cname == 'no-value' and 'value' not in used):
                     continue
@@ -2753,6 +2791,12 @@ def c05_feed(ctx):
                     if rootb.fn_bounds().get(tp_, {}).get('output') in ('()', ''):
                         feeds.add(x)
                         continue
+                f0 = resolve_local_closure(r, c['args'][0])
+                if decl(c['t']) in FN_CALLS and f0 is not None and f0[0] == 'closure' and f0[1] in getattr(ctx.opa, '_mutcaps', {}) \
+                        and any(mentions(a) for a in c['args'][1:]):
+                    # a local closure that captures the target by mutable reference (`let mut emit = |idx, v| collected.extend(..)`)
+                    feeds.add(x)
+                    continue
                 if decl(c['t']) in FN_CALLS or mth in STAGE_METHODS:
                     # the binary operator of a reduction fed with the accumulator is a feed; any other closure call is a stage
                     if decl(c['t']) in FN_CALLS and any(any(y in phi_terms for y in subterms(a)) for a in c['args'][1:]) and any(mentions(a) for a in c['args'][1:]):
@@ -3238,8 +3282,25 @@ def check_reduce_body(ctx, out, tb, depth=0):
         if bad:
             return 'the chunk is reduced through `%s`, which can drop or reorder elements' % bad[0]
         if not (is_stream_root(root) or pull_ids(root)):
+            # a reduction over the *stream of pulled chunks* whose items are the per-chunk reductions
+            # (`chunks.filter_map(|chunk| chunk.map(..).filter(..).reduce(reduce)).reduce(reduce)`)
+            if source_stream_root(I, root) and inner_depth[0] < 2:
+                inner_depth[0] += 1
+                try:
+                    e = I.elem(x[2][0])
+                    if e is None or is_top(e):
+                        return 'the per-chunk value of the reduced stream is unknown'
+                    for alt in alternatives(e):
+                        why = chain_reduce_ok(alt if not (alt[0] == 'field' and alt[2] == 1) else alt[1])
+                        if why:
+                            return why
+                    return None
+                finally:
+                    inner_depth[0] -= 1
             return 'the reduced chain is not rooted at the pulled elements'
         return None
+
+    inner_depth = [0]
 
     def combine_ok(alt, phi):
         if alt[0] == 'call' and tcallee(alt).endswith('utils::maybe_reduce') and len(alt[2]) == 3:
